@@ -40,6 +40,13 @@ def bounds(tier):
 def enumerate_cases(tier, seed):
     progs = distspace.programs(tier, seed)
     cases = [{"fam": f, "prog": p} for f, p in progs]
+    # parts compiled from the code pytato generates for them (instead of the reference evaluator): all structured
+    # programs and a seed-chosen slice of the skeleton space
+    skel = runner.slice_by_seed([c for c in cases if c["fam"].startswith("R")], seed, 40 if tier == "quick" else 8)
+    chosen = {runner.stable_hash(c) for c in skel}
+    for c in cases:
+        if not c["fam"].startswith("R") or runner.stable_hash(c) in chosen:
+            c["cparts"] = True
     return cases
 
 
@@ -73,14 +80,26 @@ def run_case(case):  # noqa: C901
                                 f"{ {r: (s[0], str(s[1])[:150]) for r, s in res['status'].items()} }\nterms: {prog['ranks']}"}]}
     parts = [res["status"][r][1]["partition"] for r in range(R)]
     nstates = ntrans = ntraces = 0
-    for val in (("ramp",) if True else values.VALUATIONS):
+    fwd = any(o.get("forward") and not o["use_input"] for o in prog["ops"])
+    modes = [("ref", None)]
+    if case.get("cparts"):
+        try:
+            modes.append(("c", [distrun.make_part_programs(parts[r], "c") for r in range(R)]))
+            counters["programs_with_compiled_parts"] += 1
+        except Exception as e:  # noqa: BLE001
+            sig = {"kind": "part-code-generation-fails", "error": type(e).__name__, "where": progcheck.exc_site(e)}
+            if fwd:
+                sig["forwarded-receive"] = True
+            viol.append({"sig": sig, "msg": f"{where}: generate_code_for_partition: " + progcheck.exc_msg("part codegen", e)[:1200]})
+    for mode, prgs in modes:
+        val = "ramp"
         inputs = [distrun.rank_inputs(prog, r, val) for r in range(R)]
         try:
             ref = distrun.global_reference(prog, val)
         except Exception as e:  # noqa: BLE001
             return {"key": prog, "nontrivial": False, "outcome": "reference-fails",
                     "violations": [{"sig": {"kind": "harness-reference-fails", "error": type(e).__name__}, "msg": f"{where}: {e}"}]}
-        ex = distrun.explore_schedules(R, parts, inputs)
+        ex = distrun.explore_schedules(R, parts, inputs, prgs_per_rank=prgs)
         nstates += ex["states"]
         ntrans += ex["transitions"]
         ntraces += ex["transitions"] + 1
